@@ -7,15 +7,16 @@ From Mpc Require Import Lang.Mini Lang.Ssa Lang.Lower Lang.LowerProof Lang.CircG
   Builders.Emit.
 Import ListNotations.
 
-Theorem compile_correct_partial p inp :
+Theorem compile_correct p inp :
   typed p -> cg_wf (lower p) = true ->
   eval_circuit (circuit_of_ssa (lower p)) (input_bits (sp_inputs (lower p)) inp) = exec_mini p inp.
 Proof.
-  intros T W. rewrite circuitgen_correct_partial by exact W. apply lower_correct, T.
+  intros T W. rewrite circuitgen_correct by exact W. apply lower_correct, T.
 Qed.
 
 (* cg_wf accepts every opcode Lang/Ssa.v gives a meaning to; what it excludes is
-   [Ounsupported], the image of concat, bts, btc, circ, builtin *)
+   [Ounsupported], the image of circ (native circuit files), of a builtin other
+   than circuits.Hamming and of the floating point opcodes *)
 Lemma cg_wf_instr_opcodes i : cg_wf_instr i = true ->
   i_op i <> Ounsupported.
 Proof.
@@ -64,4 +65,61 @@ Proof. vm_compute. repeat split; try reflexivity; repeat constructor. Qed.
 
 Example ex_instance : forall inp,
   eval_circuit (circuit_of_ssa (lower ex_prog)) (input_bits (sp_inputs (lower ex_prog)) inp) = exec_mini ex_prog inp.
-Proof. intros inp. apply compile_correct_partial; apply ex_hypotheses. Qed.
+Proof. intros inp. apply compile_correct; apply ex_hypotheses. Qed.
+
+(* ---- non-vacuity for the opcodes the lowering never emits and for GMW ----
+   an SSA program in the syntax of the compiler's listing: inputs a : uint8,
+   b : int8, c : [2]uint4;
+     v3 = concat c a          (16 bits)     v4 = bts a $3        v5 = btc a $0
+     v6 = hamming a v3        (16 bits)     v7 = udiv a $5{int12} -> 8 bits
+     v8 = idiv b $3{int12}    (12 bits: the literal's container is wider)
+     v9 = umod a $7{int12} -> 8 bits        v10 = imod b b
+   (the compiler keeps literals in 32-bit containers; 12 bits here keep the
+   in-kernel evaluation of the dividers short)
+   returning v3 .. v10 *)
+Definition u (w : nat) : sty := mkSty false w.
+Definition sg (w : nat) : sty := mkSty true w.
+Definition ex_ssa : sprog :=
+  mkSprog [8; 8; 8]%nat
+    [ mkInstr Oconcat [OVar 2 (u 8); OVar 0 (u 8)] (u 16) 0;
+      mkInstr Obts [OVar 0 (u 8); OConst 32 3 (sg 32)] (u 1) 0;
+      mkInstr Obtc [OVar 0 (u 8); OConst 32 0 (sg 32)] (u 1) 0;
+      mkInstr Ohamming [OVar 0 (u 8); OVar 3 (u 16)] (u 16) 1;
+      mkInstr Oudiv [OVar 0 (u 8); OConst 12 5 (sg 12)] (u 8) 0;
+      mkInstr Oidiv [OVar 1 (sg 8); OConst 12 3 (sg 12)] (sg 12) 0;
+      mkInstr Oumod [OVar 0 (u 8); OConst 12 7 (sg 12)] (u 8) 0;
+      mkInstr Oimod [OVar 1 (sg 8); OVar 1 (sg 8)] (sg 8) 0 ]
+    [OVar 3 (u 16); OVar 4 (u 1); OVar 5 (u 1); OVar 6 (u 16); OVar 7 (u 8);
+     OVar 8 (sg 12); OVar 9 (u 8); OVar 10 (sg 8)].
+
+Example ex_ssa_wf : cg_wf ex_ssa = true.
+Proof. vm_compute. reflexivity. Qed.
+
+Example ex_ssa_runs :
+  eval_circuit (circuit_of_ssa ex_ssa) (input_bits [8; 8; 8]%nat [200; 249; 0x5a]%N)
+  = eval_ssa ex_ssa [200; 249; 0x5a]%N /\
+  eval_ssa ex_ssa [200; 249; 0x5a]%N = [51290; 1; 1; 6; 40; 83; 4; 0]%N /\
+  eval_circuit (circuit_of_ssa ex_ssa) (input_bits [8; 8; 8]%nat [7; 3; 0]%N) = eval_ssa ex_ssa [7; 3; 0]%N.
+Proof. vm_compute. repeat split; reflexivity. Qed.
+
+(* the same program without its divisions, GMW target (Kogge-Stone adders in
+   the Hamming tree) *)
+Definition ex_ssa_gmw : sprog :=
+  mkSprog [8; 8; 8]%nat
+    [ mkInstr Oconcat [OVar 2 (u 8); OVar 0 (u 8)] (u 16) 0;
+      mkInstr Obts [OVar 0 (u 8); OConst 32 3 (sg 32)] (u 1) 0;
+      mkInstr Ohamming [OVar 0 (u 8); OVar 3 (u 16)] (u 16) 1;
+      mkInstr Oimult [OVar 1 (sg 8); OVar 0 (sg 8)] (sg 8) 0;
+      mkInstr Oisub [OVar 6 (sg 8); OVar 1 (sg 8)] (sg 8) 0;
+      mkInstr Oilt [OVar 7 (sg 8); OVar 1 (sg 8)] (u 1) 0 ]
+    [OVar 3 (u 16); OVar 4 (u 1); OVar 5 (u 16); OVar 7 (sg 8); OVar 8 (u 1)].
+
+Example ex_ssa_gmw_wf : cg_wf_tg true ex_ssa_gmw = true /\ cg_wf_tg true ex_ssa = false.
+Proof. vm_compute. split; reflexivity. Qed.
+
+Example ex_ssa_gmw_runs :
+  eval_circuit (circuit_of_ssa_gen Mpc.Gen.Thresholds.multiplierArrayTresholds 0 true ex_ssa_gmw)
+               (input_bits [8; 8; 8]%nat [200; 249; 0x5a]%N)
+  = eval_ssa ex_ssa_gmw [200; 249; 0x5a]%N /\
+  eval_ssa ex_ssa_gmw [200; 249; 0x5a]%N = [51290; 1; 6; 143; 1]%N.
+Proof. vm_compute. split; reflexivity. Qed.
